@@ -226,6 +226,11 @@ pub fn check_scheduling(w: &WorldInner, a: &Analysis, run: &RunResult, tcfg: &Tr
 
 /// C08: rounds end exactly when the timing policy says.
 pub fn check_timing(w: &WorldInner, a: &Analysis, run: &RunResult, tcfg: &TraceCfg, o: &mut Outcome, site: &str, replay: &Value, t_start: u64) {
+    check_timing_for(w, 0, a, run, tcfg, o, site, replay, t_start);
+}
+
+#[allow(clippy::too_many_arguments)]
+pub fn check_timing_for(w: &WorldInner, tracer: usize, a: &Analysis, run: &RunResult, tcfg: &TraceCfg, o: &mut Outcome, site: &str, replay: &Value, t_start: u64) {
     let views = round_views(w, a, tcfg);
     let (min, max, grace, rt) = (ns(tcfg.min_round), ns(tcfg.max_round), ns(tcfg.grace), ns(tcfg.read_timeout));
     let slack = 10_000; // ns of clock ticks
@@ -274,6 +279,46 @@ pub fn check_timing(w: &WorldInner, a: &Analysis, run: &RunResult, tcfg: &TraceC
                 format!("round {ri}: open for at least {dur_lo}ns > max {max} + read timeout {rt}"),
                 replay.clone(),
             );
+        }
+        // promptness ("rounds end exactly when the policy says"): the policy is evaluated once per
+        // loop iteration, after the receive step.  If, at the end of the receive step of an
+        // iteration, the policy computed from the genuine accepted responses alone already held
+        // (with slack for clock ticks), that iteration must have published the round - there
+        // must be no further wait on the receive socket in this round.
+        {
+            let rt_ = &a.rounds[ri];
+            let waits: Vec<&crate::world::LogEntry> = w.log[rt_.log_from..rt_.log_to].iter().filter(|e| e.tracer == tracer && e.op == crate::world::Op::IsReadable && e.err.is_none()).collect();
+            for pair in waits.windows(2) {
+                let (this, next) = (pair[0], pair[1]);
+                let t_ret = match &this.ev {
+                    crate::world::Ev::IsReadable { t_ret, .. } => *t_ret,
+                    _ => this.t,
+                };
+                // the wait of the next iteration must belong to this round's loop (after set-up)
+                if this.t < prev_pub {
+                    continue;
+                }
+                let upto: Vec<&Accepted> = v.accepted.iter().filter(|x| x.read.log_idx < next.idx).collect();
+                let e_i = upto.iter().filter(|x| x.read.log_idx > this.idx).map(|x| x.read.t).fold(t_ret, u64::max);
+                let found = upto.iter().any(|x| x.is_target);
+                let last = upto.iter().map(|x| x.read.t).max();
+                let dur = e_i.saturating_sub(prev_pub);
+                let by_max_i = dur > max + slack;
+                let by_target_i = found && dur > min + slack && last.is_some_and(|t| e_i.saturating_sub(t) > grace + slack);
+                o.hit("published_as_soon_as_policy_allows");
+                if by_max_i || by_target_i {
+                    o.violate(
+                        "published_as_soon_as_policy_allows",
+                        site,
+                        format!(
+                            "round {ri}: {dur}ns into the round the policy already held (target answered = {found}, last genuine response {:?}ns earlier; min {min} max {max} grace {grace}) but the round was kept open for another wait on the receive socket",
+                            last.map(|t| e_i.saturating_sub(t))
+                        ),
+                        replay.clone(),
+                    );
+                    break;
+                }
+            }
         }
         // the next round starts at the instant this one is published
         if ri + 1 < run.rounds.len() {
